@@ -352,6 +352,33 @@ func init() {
 				rg.compareWithModel(gOf(tier).Unrank(0, i), []string{"x", "y"}, r, true)
 			},
 		}
+		// the same programs handed over as ASTs built from Go: no node carries a source position, and all
+		// programs of a worker run in one process one after the other (whatever the evaluator remembers per
+		// source position, or from one evaluation to the next, must not show)
+		coreNoPos := &vf.Family{
+			Name:     "core-forms-without-source-positions",
+			Bounds:   "all programs of weight <=4 (quick) / <=5 (thorough) of the core-forms grammar, each delivered as an AST built from Go (no source positions) and evaluated in a fresh child scope; all programs of a worker in one process",
+			Setup:    func(t string) { tier = t; setup(t) },
+			N:        func(t string) int64 { tier = t; return gOf(t).Count(0, wOf(t)-1) },
+			Describe: func(i int64) string { return gOf(tier).Unrank(0, i).Lisp() + "   ; as an AST without source positions" },
+			Run: func(i int64, r *vf.Rec) {
+				rg.compareWithModel(gOf(tier).Unrank(0, i), []string{"x", "y"}, r, false)
+			},
+		}
+		// and under a caller context whose deadline is an hour away (nothing times out: same outcome)
+		var rgFar *evalRig
+		coreFar := &vf.Family{
+			Name:   "core-forms-under-a-far-deadline",
+			Bounds: "all programs of weight <=4 (quick) / <=5 (thorough) of the core-forms grammar, read from text and evaluated under a context whose deadline is an hour away",
+			Setup:  func(t string) { tier = t; rgFar = newEvalRig(false); rgFar.farDeadline = true },
+			N:      func(t string) int64 { tier = t; return gOf(t).Count(0, wOf(t)-1) },
+			Describe: func(i int64) string {
+				return gOf(tier).Unrank(0, i).Lisp() + "   ; under a context whose deadline is an hour away"
+			},
+			Run: func(i int64, r *vf.Rec) {
+				rgFar.compareWithModel(gOf(tier).Unrank(0, i), []string{"x", "y"}, r, true)
+			},
+		}
 		// closure / recursion family: (do (def f (fn P B)) C)
 		var g2 *enum.Grammar
 		g2Of := func() *enum.Grammar {
@@ -513,7 +540,7 @@ func init() {
 			ID: "C01", Level: "model_checking",
 			Rule:        "every program of the bounded grammar is evaluated by the real EVAL and by an independent definitional interpreter; result (or error kind and thrown value), ordered effect trace and final bindings of x, y, f must agree; non-trivial = the program has effects or binds a global",
 			Assumptions: []string{"the definitional interpreter (harness/internal/model/interp.go) transcribes the mal definition as amended by the README", "error messages are not compared, only value-vs-error, thrown payload, trace and bindings", "programs that run out of fuel on either side are skipped and counted"},
-			Families:    []*vf.Family{core, rec, scoping, literals, loops},
+			Families:    []*vf.Family{core, rec, scoping, literals, loops, coreNoPos, coreFar},
 		}
 	})
 }
